@@ -368,6 +368,12 @@ class Engine:
             return ChanObj([self.merge_val(c, x, y, et, ha, hb, hn) for x, y in zip(a.items, b.items)], a.closed)
         if isinstance(a, MapObj) and isinstance(b, MapObj):
             return self.merge_mapobj(c, a, b, t, ha, hb, hn)
+        if isinstance(t, tuple) and t[0] == 'arr':
+            # backing array of a slice: element-wise merge (the shorter side is padded with zero values)
+            et = t[1]
+            n = max(len(a), len(b))
+            z = self.zero(et)
+            return tuple(self.merge_val(c, a[j] if j < len(a) else z, b[j] if j < len(b) else z, et, ha, hb, hn) for j in range(n))
         return self.merge_val(c, a, b, t, ha, hb, hn)
 
     def merge_mapobj(self, c, a, b, t, ha, hb, hn):
@@ -668,7 +674,7 @@ class Engine:
                 self.objtype[sobj] = None
                 self.global_init_val = getattr(self, 'global_init_val', {})
                 self.global_init_val[sobj] = (name.encode(),)
-                st.heap[sobj] = (name.encode(),)
+                st.heap[sobj] = self.global_init_val[sobj]
                 val = Iface(((True, '*errors.errorString', Ptr(((True, sobj, ()),))),))
             elif name in self.globalinit:
                 val = Opaque(('regexp', self.globalinit[name]['regexp']))
@@ -1256,7 +1262,7 @@ class Engine:
             cp = self.val(st, ins['cap']) if ins.get('cap') else n
             capn = self.upper_bound(st, cp)
             elem = self.T(self.under(ins['type'])[0])['elem']
-            obj = self.new_obj(st, tuple(self.zero(elem) for _ in range(capn)), None)
+            obj = self.new_obj(st, tuple(self.zero(elem) for _ in range(capn)), ('arr', elem))
             return SliceV(obj, 0, n, capn, False)
         if op == 'Slice':
             return self.slice(st, ins)
@@ -1439,7 +1445,7 @@ class Engine:
             else:
                 oldj = old[j] if j < len(old) else zero
                 new.append(self.merge_val(sb(z3.UGT(alen, j)), oldj, elem, elem_t, st.heap, st.heap, st.heap))
-        obj = self.new_obj(st, tuple(new), None)
+        obj = self.new_obj(st, tuple(new), ('arr', elem_t))
         return SliceV(obj, 0, alen + 1 if not is_sym(alen) else si(alen + 1), cap)
 
     # ---- maps: entries (key, guard, value); keys may be symbolic ints/strings
